@@ -92,7 +92,10 @@ fn run_one(ctx: &RunCtx, tier: Tier) -> RunOut {
         // a wall clock that was behind is corrected before the next loop iteration runs
         if !matches!(step, Step::Restart { .. }) {
             if let Some(off) = wall_behind.take() {
+                // the correction arrives after a long delay (1000 s on both clocks): the reported
+                // duration must still be finish-to-machine-start
                 let mut g = h.ex().w.lock().unwrap();
+                g.clock.mono += 1_000_000_000_000;
                 g.clock.wall = g.clock.mono + off;
             }
         }
